@@ -303,7 +303,7 @@ def run_probes(pid):
             if code == "lifetime":
                 ok = p.returncode != 0 and ("lifetime may not live long enough" in p.stdout or "E0521" in p.stdout or "E0597" in p.stdout or "E0515" in p.stdout or "E0499" in p.stdout or "E0716" in p.stdout)
             else:
-                ok = p.returncode != 0 and (code in p.stdout)
+                ok = p.returncode != 0 and any(cd in p.stdout for cd in code.split("|"))
         # what a disagreement means for the property:
         #   compiles although it must not        -> the escape route is open: a direct violation
         #   rejected, but for another reason     -> still closed; the probe lost its point (API renamed?): a note
